@@ -48,6 +48,8 @@ static void run_case(CaseCtx& c)
     cfg.post = rng.range(0, 3);
     cfg.fmg = rng.coin(0.5);
     cfg.threads = rng.pick({1, 1, 1, 3});
+    if (c.arg("threads") == "multi") // stage with OMP_THREAD_LIMIT=1: every configuration asks for several threads
+        cfg.threads = rng.pick({2, 3, 4});
     cfg.with_exact = false;
     int type = rng.range(0, 2);
     int start_kind = rng.range(0, 3); // 0 random, 1 zero, 2 exact discrete solution (non-extrapolated only), 3 wide
